@@ -54,6 +54,34 @@ class BaseGotranODECodePrinter(StrPrinter):
         # exp(1) is evaluated to Euler's number, which StrPrinter writes as 'E'
         return "exp(1)"
 
+    # sympy rewrites some expressions in terms of functions the .ode language does not have
+    # (Abs(exp(acos(x))) -> exp(re(acos(x))), tan(acos(sin(2))) -> -cot(2),
+    # Abs(exp(sqrt(a))) -> exp(cos(atan2(0, a)/2)*sqrt(Abs(a)))): write them with the ones it has.
+    # Every quantity of a model is a real number.
+    def _print_re(self, expr):
+        return self._print(expr.args[0])
+
+    def _print_im(self, expr):
+        return "0"
+
+    def _print_cot(self, expr):
+        return f"(1/tan({self._print(expr.args[0])}))"
+
+    def _print_sec(self, expr):
+        return f"(1/cos({self._print(expr.args[0])}))"
+
+    def _print_csc(self, expr):
+        return f"(1/sin({self._print(expr.args[0])}))"
+
+    def _print_atan2(self, expr):
+        y, x = (f"({self._print(a)})" for a in expr.args)
+        q = f"atan({y}/{x})"
+        return (
+            f"Conditional(Gt({x}, 0), {q}, "
+            f"Conditional(Lt({x}, 0), Conditional(Ge({y}, 0), {q} + pi, {q} - pi), "
+            f"Conditional(Gt({y}, 0), pi/2, Conditional(Lt({y}, 0), -pi/2, 0))))"
+        )
+
     def _print_BooleanFalse(self, expr):
         return "0"
 
